@@ -41,7 +41,7 @@ let () =
   let top o =
     let (st, out) = tstep !nt !ts o in
     ts := st;
-    (match o with TRun _ | TProg _ | TObs | TLatch _ -> print_zs out | _ -> ()) in
+    (match o with TRun _ | TProg _ | TDrain _ | TObs | TLatch _ -> print_zs out | _ -> ()) in
   let pending_keys = Hashtbl.create 16 in
   try
     while true do
@@ -77,6 +77,7 @@ let () =
          | "l" -> top (TLatch (a.(0), a.(1)))
          | "R" -> top (TRun (a.(0), a.(1)))
          | "P" -> top (TProg (a.(0), a.(1)))
+         | "W" -> top (TDrain (a.(0), a.(1), a.(2)))
          | "S" -> top TObs
          | _ -> ())
     done
